@@ -86,6 +86,10 @@ theorem shell_worker_indep (ra rb : Runtime) (hc : Compatible ra rb = true) (ops
 
 theorem extracted_compatible : Compatible Extracted.Runtime.asyncioRt Extracted.Runtime.trioRt = true := by decide
 
+/-- both shells hand every connection its own copy of the worker's lifespan state (`ConnectionState(self.state.copy())` in both
+    `run()`s, read off the source): what an application writes to `scope["state"]` stays on its connection in both workers -/
+theorem both_copy_state : Extracted.Runtime.asyncioRt.copiesState = true ∧ Extracted.Runtime.trioRt.copiesState = true := by decide
+
 /-- **C16 for the shells as the source has them now.** -/
 theorem worker_indep (ops : List Op) (a' : St) (h : run Extracted.Runtime.asyncioRt {} ops = some a') :
     ∃ t', run Extracted.Runtime.trioRt {} ops = some t' ∧ a'.obs = t'.obs :=
